@@ -163,6 +163,17 @@ def check_case(run, case):
         run.ev('scorer_loader_compared')
         # 4. OMEN: three readers
         model = oracles.OmenModel(os.path.join(path, 'Omen'))
+        # what the trainer held in memory when it wrote the OMEN files is what a reader of the files gets back (n-gram text and level)
+        tr = res.omen_trainer
+        if tr is not None:
+            tip = {k: d['ip_level'] for k, d in tr.grammar.items()}
+            tcp = {k: {c: lv[0] for c, lv in d['next_letter'].items()} for k, d in tr.grammar.items() if d['next_letter']}
+            if tip != model.ip or tcp != model.cp:
+                bad = sorted(set(tip) ^ set(model.ip))[:4] or sorted(k for k in set(tcp) | set(model.cp) if tcp.get(k) != model.cp.get(k))[:4]
+                run.violation(f'OMEN files: the n-grams / levels on disk (IP.level, CP.level) differ from what the trainer computed: {bad!r}', case, observed=bad); return
+            if [lv[0] for lv in tr.ln_lookup] != model.ln:
+                run.violation('OMEN files: LN.level differs from the length levels the trainer computed', case, observed=model.ln[:8]); return
+            run.ev('omen_files_vs_trainer_state')
         from lib_guesser.omen.input_file_io import load_rules
         og = {}
         with contextlib.redirect_stderr(err), contextlib.redirect_stdout(err):
